@@ -69,3 +69,8 @@ TEXT['C09'] = dict(
    technique='Coq proof (partial): atomic database steps read from the source, store = sequential table on every history, verdicts depend on own steps only, exchanges not derailed under any interleaving; no-alias run, real-time bursts, concurrent API calls, race detector',
    level='PARTIAL. Proved (coq/Properties/C09.v): database operations are atomic (fact extracted from the source each run) and behave as the sequential reference table on every history; a REQUEST verdict depends only on the sender\'s own message, binding and probe; once an address is held for a client its exchange completes whatever operations other handlers perform in between (all interleavings); a DISCOVER is one database operation. Evidenced by runs only: absence of data races (race detector), that option payloads do not alias the receive buffer, that simultaneous DISCOVER/REQUEST bursts through the real Run loop each get exactly one distinct OFFER/ACK. The Go memory model itself is outside the model.',
    note=_SRV_NOTE)
+
+TEXT['C19'] = dict(
+   technique='Coq proof (partial) over a process model of every socket-opening routine (Open/Close/Spawn/Write/Wait events, sockets with identities, context tree) run under an arbitrary oracle: ownership discipline => every socket closed exactly once, bounded and deadlock-free shutdown; counting in-memory sockets + goroutine count under testing/synctest with fault injection at every open/write and cancellation at random virtual instants',
+   level='PARTIAL. Proved (coq/Properties/C19.v) for EVERY oracle (which opens/writes fail, every branch, packet arrivals, timer/timeout order, cancellation at any step, any interleaving of goroutines): for the server (Run, closer, one handler per packet with searches over any number of candidates, arpVerify, Ping with its sender and closer goroutines, sendUnicast) and the client (state loop, advanceState, sendMessage/sendSocket incl. the unicast Pings, catchReply, ARP check, panicReset, limiter) no Close ever hits a socket that is not open, opens = closes + open sockets, and when all goroutines have returned opens = closes; after cancel() the pool makes at most cost(state) <= goroutines x 2 x program-size further steps if the environment stays silent and is never stuck before all goroutines returned; exact open counts of histories (probed DISCOVER with OFFER = 7). Evidenced by runs only: that the real code follows the model (counts after every packet of 150 server histories, fault injection at every n-th open/write, cancel at 200 random instants of server and client: 0 virtual time to return, sockets balanced, goroutine count back at baseline). NOT covered: descriptor leaks inside the real lib/rsocks (never executed by any check); goroutine accounting is by count; the limiter path sleeps 20 s regardless of the context (finding F11, recorded, not judged).',
+   note='Trusted: Coq kernel, extraction, driver, harness, the hand-written process model (tied by gofacts close-site facts and by the runs), testing/synctest virtual time, the in-memory sockets.')
